@@ -15,7 +15,11 @@ Consume == l <= Len(Rec) /\ l' = l + 1
 TokOk(lit, tok) ==
   IF IsInteger(lit) /\ FitsI64(lit)
     THEN tok.fp = <<>> /\ ~tok.hasexp /\ StripLeadingZeros(tok.ip) = ExpectInt(lit)     \* exactly its digits
-    ELSE SameFloat(Canon(tok), Canon(lit))                                            \* the same decimal value (as far as an f64 holds it)
+    \* the same decimal value as far as an f64 holds it; a literal of at most 15 significant digits is the shortest
+    \* decimal of its own double (IEEE 754 binary64 keeps 15 digits), so the token - the shortest decimal of the double
+    \* the compiler carried - must be the literal's value exactly: a neighbouring double (110.00000000000001) is a fault
+    ELSE IF Len(StripTrailingZeros(Sig(Canon(lit)))) <= 15 THEN Canon(tok) = Canon(lit)
+    ELSE SameFloat(Canon(tok), Canon(lit))
 Fault(e) ==
   IF \E i \in 1 .. Len(e.dialects) : ~(e.dialects[i].compiled /\ e.dialects[i].ntok = 1 /\ TokOk(e.lit, e.dialects[i].tok))
     THEN "token:" \o (e.dialects[CHOOSE i \in 1 .. Len(e.dialects) : ~(e.dialects[i].compiled /\ e.dialects[i].ntok = 1 /\ TokOk(e.lit, e.dialects[i].tok))]).d
